@@ -132,7 +132,7 @@ impl Prop for C13 {
         ]
     }
 
-    fn required_probes(&self) -> Vec<&'static str> { vec!["allocations_counted", "datagram_truncated_to_buffer"] }
+    fn required_probes(&self) -> Vec<&'static str> { vec!["allocations_counted", "datagram_truncated_to_buffer", "recorded_conversation_replayed", "http_client_connects_over_simulated_tcp"] }
 
     fn components(&self) -> Value { standard_components() }
 }
